@@ -151,6 +151,9 @@ impl PatSpec {
 pub struct SubSpec {
     pub name: String,
     pub lit: LitSpec,
+    /// body with nested references inlined (C11 twin)
+    #[serde(default, skip_serializing_if = "Option::is_none")]
+    pub inlined: Option<LitSpec>,
 }
 
 /// A lexer definition. Leaf order (as logos builds it): all skips in order, then the patterns of
